@@ -53,6 +53,10 @@ def _menu():
     m.append(('ffill+bfill tuple', ('ffill', 'bfill'), LIMITS))
     m.append(('nona', 'nona', [None]))
     m.append(('fnna', 'fnna', [None]))
+    # lists mixing the row-dropping and the fill-up-to-the-last-observation methods with the others: every step works on the result of the step before
+    for lst in (['fnna', 'ffill_na'], ['fnna', 'ffill_0'], ['nona', 'ffill'], ['fnna', 'bfill'], ['ffill', 'ffill_na'], ['bfill', 'ffill_0'],
+                ['ffill_na', 'bfill'], ['ffill_0', 'fnna'], ['ffill', 'nona'], ['ffill_na', 'nona']):
+        m.append(('+'.join(lst), lst, [None, 1]))
     m.append(('ffill_na', 'ffill_na', LIMITS))
     m.append(('ffill_0', 'ffill_0', LIMITS))
     return m
@@ -124,6 +128,8 @@ def model(cols, n, method):
     kept = list(range(n))
     cols = [list(c) for c in cols]
     for s in steps:
+        if any(v == NAN_OR_0 for c in cols for v in c):
+            return None, None                # an unspecified cell (ffill_0 on a column without an observation) would flow into a further step: not judged
         if s == 'ffill':
             cols = [m_ffill(c, limit) for c in cols]
         elif s in ('bfill', 'backfill'):
@@ -389,6 +395,8 @@ def check(case):
             if pk == 'series_dup' and any(st in ('fnna', 'ffill_na', 'ffill_0') for st in steps):
                 continue        # 'leading' / 'after the last valid observation' are decided by LABEL there: ambiguous when two rows share a timestamp
             kept, ecols = model(cols, n, (name, steps, limit))
+            if kept is None:
+                continue
             # ---- pandas object
             pd_ok = None
             for inp in (P, A):
